@@ -13,6 +13,7 @@ import (
 	"bytes"
 	"encoding/hex"
 	"fmt"
+	"io"
 	"os"
 	"sort"
 	"strings"
@@ -39,7 +40,7 @@ type params struct {
 	Msg    string   `json:"msg"`
 	KeySet int      `json:"keyset"` // which key generation the material comes from (0/1)
 	PreSig int      `json:"presig"` // which presignature (0/1)
-	Child  bool     `json:"child"`  // key material is the BIP-32 child (index 0) of the key set
+	Child  int      `json:"child"`  // 0: the key set itself; 1: its BIP-32 child 0; 2 / 3: child 0 / child 1 derived from a parent OBJECT that has already been used (written into a transcript)
 }
 
 func (p params) String() string {
@@ -143,8 +144,13 @@ func spec(p params) (*sess.Spec, error) {
 			if err := c.UnmarshalBinary(b); err != nil {
 				return nil, err
 			}
-			if p.Child {
-				cc, err := c.DeriveBIP32(0)
+			if p.Child >= 2 {
+				// the parent has been in use before the child is derived from it: anything the object
+				// remembers from having been hashed must not travel into the child
+				_, _ = c.WriteTo(io.Discard)
+			}
+			if p.Child > 0 {
+				cc, err := c.DeriveBIP32(uint32(p.Child / 3))
 				if err != nil {
 					return nil, err
 				}
@@ -241,8 +247,13 @@ func variants(base params, cmpLike bool) map[string]params {
 	if cmpLike && base.Proto != "cmp-keygen" {
 		// related key material: the BIP-32 child shares everything with its parent except the ECDSA shares
 		p := base
-		p.Child = !base.Child
+		p.Child = 1 - base.Child
 		v["key-material=bip32-child"] = p
+		if base.Child == 0 {
+			p2 := base
+			p2.Child = 2
+			v["key-material=bip32-child-of-a-used-parent"] = p2
+		}
 	}
 	return v
 }
@@ -433,6 +444,26 @@ func main() {
 							map[string]interface{}{"a": A, "b": B})
 					}
 					replayPair(A, B, "message", ta == tb, res)
+				}
+			}
+		}
+		// two sibling children (indices 0 and 1) derived from one parent object that was already in use
+		if tagMustDiffer(base.Proto, "key-material") && strings.HasPrefix(base.Proto, "cmp-") && base.Proto != "cmp-keygen" && base.Child == 0 {
+			n++
+			if vkit.Mine(n) {
+				A, B := base, base
+				A.Child, B.Child = 2, 3
+				ta, _, ea := firstTag(A)
+				tb, _, eb := firstTag(B)
+				res.Case(fmt.Sprintf("tag|%s|key-material=bip32-sibling-children-of-a-used-parent", base.Proto))
+				if ea != nil || eb != nil {
+					res.Hard(fmt.Sprintf("tag: cannot start %v / %v: %v %v", A, B, ea, eb))
+				} else {
+					if ta == tb {
+						res.Violate("same-tag|"+base.Proto+"|key-material", fmt.Sprintf("sessions on the children 0 and 1 of one (already used) parent configuration have the same tag: %v vs %v (protocol %q, ssid %s)", A, B, ta.Protocol, ta.SSID),
+							map[string]interface{}{"a": A, "b": B})
+					}
+					replayPair(A, B, "key-material", ta == tb, res)
 				}
 			}
 		}
